@@ -10,6 +10,29 @@ use std::collections::BTreeSet;
 
 type A = u64;
 
+/// reset_remove laws on a state: empty clock, composition = join, idempotence
+macro_rules! reset_laws {
+    ($s:expr, $c1:expr, $c2:expr, $t:expr) => {{
+        let s = $s;
+        let mut e = s.clone();
+        e.reset_remove(&VClock::new());
+        $t.line(&format!("(law C18 empty {} {} {} {})", e.same(s), e.reads_sx() == s.reads_sx(), e.sx(), s.sx()));
+        let mut r1 = s.clone();
+        r1.reset_remove($c1);
+        let mut r2 = r1.clone();
+        r2.reset_remove($c2);
+        let mut j = $c1.clone();
+        j.merge($c2.clone());
+        let mut r12 = s.clone();
+        r12.reset_remove(&j);
+        $t.line(&format!("(law C18 join {} {} {} {})", r2.same(&r12), r2.reads_sx() == r12.reads_sx(), r2.sx(), r12.sx()));
+        let mut r11 = r1.clone();
+        r11.reset_remove($c1);
+        $t.line(&format!("(law C18 idem {} {} {} {})", r11.same(&r1), r11.reads_sx() == r1.reads_sx(), r11.sx(), r1.sx()));
+    }};
+}
+
+
 pub fn dispatch(ty: &str, id: &str, disc: u64, cmds: &[Vec<u64>], t: &mut Out) {
     match ty {
         "vclock" => run_generic::<VClock<A>>(id, disc, cmds, t),
@@ -264,6 +287,8 @@ impl Sut for GCounter<A> {
         let mut r = self.clone();
         r.reset_remove(&c);
         t.call("gcounter.reset", &[sx(self), sx(&c), sx(&r)]);
+        let c2 = rand_clock(a, false);
+        reset_laws!(self, &c, &c2, t);
         serde_rt("gcounter", self, t);
     }
     fn sx(&self) -> String {
@@ -331,6 +356,8 @@ impl Sut for PNCounter<A> {
         let mut r = self.clone();
         r.reset_remove(&c);
         t.call("pncounter.reset", &[sx(self), sx(&c), sx(&r)]);
+        let c2 = rand_clock(a, false);
+        reset_laws!(self, &c, &c2, t);
         serde_rt("pncounter", self, t);
     }
     fn sx(&self) -> String {
@@ -656,6 +683,7 @@ impl Sut for Orswot<u64, A> {
         let mut r2 = r1.clone();
         r2.reset_remove(&c2);
         t.call("orswot.reset", &[sx(&r1), sx(&c2), sx(&r2)]);
+        reset_laws!(self, &c1, &c2, t);
         t.call("orswot.validate_merge", &[sx(self), sx(o), vm_sx(self.validate_merge(o))]);
         t.call("orswot.validate_merge", &[sx(o), sx(self), vm_sx(o.validate_merge(self))]);
         serde_rt("orswot", self, t);
@@ -739,6 +767,8 @@ impl Sut for MVReg<u64, A> {
         let mut r1 = self.clone();
         r1.reset_remove(&c1);
         t.call("mvreg.reset", &[sx(self), sx(&c1), sx(&r1)]);
+        let c2 = rand_clock(a, false);
+        reset_laws!(self, &c1, &c2, t);
         let e = guard(|| self == o);
         t.call(
             "mvreg.eq",
@@ -886,6 +916,7 @@ macro_rules! map_sut {
                 let mut r2 = r1.clone();
                 r2.reset_remove(&c2);
                 t.call(concat!($name, ".reset"), &[sx(&r1), sx(&c2), sx(&r2)]);
+                reset_laws!(self, &c1, &c2, t);
                 t.call(concat!($name, ".validate_merge"), &[sx(self), sx(o), vm_sx(self.validate_merge(o))]);
                 serde_rt($name, self, t);
             }
@@ -1387,3 +1418,4 @@ fn gread(s: &GList<u64>) -> String {
         None => "panic".into(),
     }
 }
+
